@@ -602,3 +602,491 @@ Proof.
 Qed.
 Print Assumptions insert_placeholders_items.
 Print Assumptions windash_items.
+
+(* ====================================================================================== *)
+(* The chain: the model of from_mapping refines the specification                          *)
+(* ====================================================================================== *)
+
+Lemma to_plain_items v : to_plain false v = plain_items (items v).
+Proof.
+  induction v as [|p v IH]; [reflexivity|]. rewrite to_plain_cons, items_cons.
+  unfold plain_items in *. rewrite flat_map_app, <- IH. f_equal.
+  destruct p as [s| | |n]; cbn [part_plain part_items flat_map]; rewrite ?app_nil_r; try reflexivity.
+  unfold plain_escape. induction s as [|c s IHs]; [reflexivity|]. cbn [map flat_map item_plain]. rewrite IHs. reflexivity.
+Qed.
+
+(* parse with escape = False (regular expressions) *)
+Lemma parse_go_noesc s : forall r acc,
+  parse_go false s r acc false = r ++ canon_go (iparse_noesc s) acc.
+Proof.
+  induction s as [|c s IH]; intros r acc.
+  - cbn. rewrite flush_app. reflexivity.
+  - cbn [parse_go]. rewrite andb_false_r. unfold iparse_noesc. cbn [map]. fold (iparse_noesc s).
+    destruct (is_special c) eqn:Es.
+    + rewrite IH. rewrite special_item_part by exact Es. rewrite (flush_app r acc), <- !app_assoc. reflexivity.
+    + rewrite IH. reflexivity.
+Qed.
+Lemma parse_noesc_canon s : parse false s = canon (iparse_noesc s).
+Proof. unfold parse. rewrite parse_go_noesc. reflexivity. Qed.
+
+Lemma canon_go_wfp l : forall acc, wfp (canon_go l acc) = true.
+Proof.
+  induction l as [|i l IH]; intros acc.
+  - destruct acc; reflexivity.
+  - destruct i as [c| | |n]; cbn [canon_go]; try apply IH;
+      (destruct acc as [|a acc]; cbn [flush app wfp str_empty starts_pstr negb andb]; apply IH).
+Qed.
+Lemma canon_wfp l : wfp (canon l) = true.
+Proof. apply canon_go_wfp. Qed.
+Lemma parse_wfp s : wfp (parse true s) = true.
+Proof. rewrite parse_canon. apply canon_wfp. Qed.
+Lemma parse_noesc_wfp s : wfp (parse false s) = true.
+Proof. rewrite parse_noesc_canon. apply canon_wfp. Qed.
+Lemma parse_noesc_items s : items (parse false s) = iparse_noesc s.
+Proof. rewrite parse_noesc_canon. apply items_canon. Qed.
+
+Lemma canon_go_no_ph l : forall acc,
+  existsb (fun i => match i with Ph _ => true | _ => false end) l = false -> no_ph (canon_go l acc) = true.
+Proof.
+  unfold no_ph. induction l as [|i l IH]; intros acc H.
+  - destruct acc; reflexivity.
+  - destruct i as [c| | |n]; cbn [existsb] in H; try discriminate H; cbn [canon_go];
+      try (apply IH; exact H);
+      (rewrite existsb_app; destruct acc; cbn [flush existsb is_ph orb]; apply IH; exact H).
+Qed.
+Lemma iparse_no_ph s : existsb (fun i => match i with Ph _ => true | _ => false end) (iparse s) = false.
+Proof.
+  assert (G: forall n s, (length s <= n)%nat ->
+             existsb (fun i => match i with Ph _ => true | _ => false end) (iparse s) = false).
+  { induction n as [|n IH]; intros t Hl.
+    - destruct t; [reflexivity | simpl in Hl; lia].
+    - destruct t as [|c t]; [reflexivity|]. cbn [iparse]. destruct (N.eqb c c_bs).
+      + destruct t as [|d t]; [reflexivity|].
+        destruct (is_special d || N.eqb d c_bs); cbn [existsb orb]; apply IH; simpl in Hl; simpl; lia.
+      + destruct (is_special c); [unfold special_item; destruct (N.eqb c c_star)|]; cbn [existsb orb];
+          apply IH; simpl in Hl; lia. }
+  apply (G (length s)). lia.
+Qed.
+Lemma parse_no_ph s : no_ph (parse true s) = true.
+Proof. rewrite parse_canon. apply canon_go_no_ph. apply iparse_no_ph. Qed.
+Lemma parse_noesc_no_ph s : no_ph (parse false s) = true.
+Proof.
+  rewrite parse_noesc_canon. apply canon_go_no_ph. unfold iparse_noesc.
+  induction s as [|c s IH]; [reflexivity|]. cbn [map existsb].
+  destruct (is_special c); [unfold special_item; destruct (N.eqb c c_star)|]; exact IH.
+Qed.
+
+(* ---------- well-formedness is preserved by expand and windash ---------- *)
+Lemma wfp_app X Y : wfp X = true -> wfp Y = true -> starts_pstr Y = false -> wfp (X ++ Y) = true.
+Proof.
+  intros HX HY HS. induction X as [|p X IH]; [exact HY|].
+  specialize (IH (wfp_tail _ _ HX)). destruct p as [s| | |n]; cbn [app wfp] in *; try exact IH.
+  apply andb_true_iff in HX. destruct HX as [HX _]. apply andb_true_iff in HX. destruct HX as [H1 H2].
+  rewrite H1, IH. destruct X as [|q X]; cbn [app]; [rewrite HS; reflexivity|].
+  cbn [starts_pstr] in *. rewrite H2. reflexivity.
+Qed.
+
+Lemma flush_u_cases acc : flush_u acc = [] \/ exists c t, flush_u acc = [PStr (c :: t)].
+Proof. unfold flush_u. destruct (unescape_pct acc) as [|c t]; [left; reflexivity | right; exists c, t; reflexivity]. Qed.
+
+Lemma ip_scan_wfp : forall f pbs s acc, wfp (ip_scan f pbs s acc) = true.
+Proof.
+  assert (F: forall acc, wfp (flush_u acc) = true).
+  { intros acc. destruct (flush_u_cases acc) as [->|[c [t ->]]]; reflexivity. }
+  induction f as [|f IH]; intros pbs s acc; [apply F|].
+  destruct s as [|c s]; [apply F|]. rewrite ip_scan_cons.
+  destruct (N.eqb c c_pct && negb pbs); [|apply IH].
+  destruct (find_pct s []) as [[[|x name] rest]|]; try apply IH.
+  destruct (flush_u_cases acc) as [->|[d [t ->]]]; cbn [app wfp str_empty starts_pstr negb andb]; apply IH.
+Qed.
+
+Theorem insert_placeholders_wfp v : wfp v = true -> wfp (insert_placeholders v) = true.
+Proof.
+  unfold insert_placeholders. induction v as [|p v IH]; intros H; [reflexivity|].
+  specialize (IH (wfp_tail _ _ H)). cbn [flat_map]. destruct p as [s| | |n]; try exact IH.
+  cbn [ip_part]. apply wfp_app; [apply ip_scan_wfp | exact IH|].
+  cbn [wfp] in H. apply andb_true_iff in H. destruct H as [H _]. apply andb_true_iff in H. destruct H as [_ H].
+  destruct v as [|[t| | |m] v]; try reflexivity. discriminate H.
+Qed.
+
+Lemma wd_scan_no_match w : forall e pw acc,
+  existsb is_ph (wd_scan w pw e acc) = false -> wd_scan w pw e acc = flush [] (acc ++ e).
+Proof.
+  induction e as [|c e IH]; intros pw acc H; [rewrite app_nil_r; reflexivity|].
+  cbn [wd_scan] in *. destruct (is_dash c && negb pw && match e with d :: _ => w d | [] => false end).
+  - rewrite existsb_app in H. cbn [existsb is_ph] in H. rewrite orb_true_r in H. discriminate H.
+  - rewrite (IH _ _ H), <- app_assoc. reflexivity.
+Qed.
+Lemma rwp_no_match w : forall v,
+  existsb is_ph (replace_with_placeholder w v) = false -> replace_with_placeholder w v = v.
+Proof.
+  unfold replace_with_placeholder. induction v as [|p v IH]; intros H; [reflexivity|].
+  cbn [flat_map] in *. rewrite existsb_app in H. apply orb_false_iff in H. destruct H as [H1 H2].
+  rewrite (IH H2). destruct p as [[|c s]| | |n]; try reflexivity.
+  cbn [rwp_part] in *. rewrite (wd_scan_no_match w _ _ _ H1). reflexivity.
+Qed.
+
+Definition only_wd (v : sstring) : bool :=
+  forallb (fun p => match p with PPh n => str_eqb n windash_name | _ => true end) v.
+
+Lemma wd_scan_shape w : forall e pw acc,
+  no_empty (wd_scan w pw e acc) = true /\ only_wd (wd_scan w pw e acc) = true.
+Proof.
+  assert (F: forall acc, no_empty (flush [] acc) = true /\ only_wd (flush [] acc) = true).
+  { intros [|a acc]; split; reflexivity. }
+  induction e as [|c e IH]; intros pw acc; [apply F|]. cbn [wd_scan].
+  destruct (is_dash c && negb pw && match e with d :: _ => w d | [] => false end); [|apply IH].
+  destruct (F acc) as [F1 F2]. destruct (IH false []) as [I1 I2].
+  unfold no_empty, only_wd in *. rewrite !forallb_app. cbn [forallb nonempty_part].
+  rewrite F1, F2, I1, I2, str_eqb_refl. split; reflexivity.
+Qed.
+Lemma rwp_shape w : forall v, no_empty v = true -> no_ph v = true ->
+  no_empty (replace_with_placeholder w v) = true /\ only_wd (replace_with_placeholder w v) = true.
+Proof.
+  unfold replace_with_placeholder. induction v as [|p v IH]; intros Hn Hp; [split; reflexivity|].
+  cbn [no_empty forallb] in Hn. apply andb_true_iff in Hn. destruct Hn as [Hn1 Hn2].
+  unfold no_ph in Hp. cbn [existsb] in Hp. apply negb_true_iff in Hp. apply orb_false_iff in Hp. destruct Hp as [Hp1 Hp2].
+  destruct (IH Hn2 (proj2 (negb_true_iff _) Hp2)) as [I1 I2]. cbn [flat_map].
+  unfold no_empty, only_wd in *. rewrite !forallb_app, I1, I2, !andb_true_r.
+  destruct p as [[|c s]| | |n]; try (split; reflexivity); try discriminate.
+  cbn [rwp_part]. apply (wd_scan_shape w (c :: s) false []).
+Qed.
+
+Lemma rp_shape : forall X, no_empty X = true -> only_wd X = true ->
+  Forall (fun x => no_empty x = true /\ no_ph x = true) (rp X).
+Proof.
+  induction X as [|p X IH]; intros Hn Ho; [repeat constructor|].
+  cbn [no_empty forallb] in Hn. apply andb_true_iff in Hn. destruct Hn as [Hn1 Hn2].
+  cbn [only_wd forallb] in Ho. apply andb_true_iff in Ho. destruct Ho as [Ho1 Ho2].
+  specialize (IH Hn2 Ho2).
+  assert (G: forall q, nonempty_part q = true -> is_ph q = false ->
+             Forall (fun x => no_empty x = true /\ no_ph x = true) (map (cons q) (rp X))).
+  { intros q Hq1 Hq2. apply Forall_forall. intros x Hx. apply in_map_iff in Hx. destruct Hx as [y [<- Hy]].
+    rewrite Forall_forall in IH. destruct (IH y Hy) as [A B]. unfold no_ph in *. cbn [no_empty forallb existsb].
+    rewrite Hq1, Hq2. split; [exact A | exact B]. }
+  destruct p as [s| | |n]; cbn [rp]; try (apply G; [exact Hn1 | reflexivity]).
+  rewrite Ho1. apply Forall_forall. intros x Hx. apply in_flat_map in Hx. destruct Hx as [d [_ Hx]].
+  revert x Hx. apply Forall_forall. apply G; reflexivity.
+Qed.
+
+Lemma merge_is_ph v : existsb is_ph (merge_strs v) = existsb is_ph v.
+Proof.
+  induction v as [|p v IH]; [reflexivity|]. destruct p as [a| | |n]; cbn [merge_strs existsb is_ph]; rewrite <- ?IH; try reflexivity.
+  destruct (merge_strs v) as [|[b| | |m] r]; reflexivity.
+Qed.
+
+Theorem windash_good w v : wfp v = true -> no_ph v = true ->
+  Forall (fun x => wfp x = true /\ no_ph x = true) (windash w v).
+Proof.
+  intros Hw Hp. unfold windash, replace_placeholders.
+  destruct (existsb is_ph (replace_with_placeholder w v)) eqn:E.
+  - destruct (rwp_shape w v (wfp_no_empty v Hw) Hp) as [S1 S2].
+    pose proof (rp_shape _ S1 S2) as H. rewrite Forall_forall in *. intros x Hx.
+    apply in_map_iff in Hx. destruct Hx as [y [<- Hy]]. destruct (H y Hy) as [A B].
+    split; [apply merge_no_empty_wfp; exact A|]. unfold no_ph in *. rewrite merge_is_ph. exact B.
+  - rewrite (rwp_no_match w v E). constructor; [split; assumption | constructor].
+Qed.
+
+(* ---------- helper lemmas for the step simulation ---------- *)
+Lemma firstn_prefix (p : str) : forall s, str_eqb (firstn (length p) s) p = prefixb p s.
+Proof.
+  induction p as [|x p IH]; intros s; [reflexivity|]. destruct s as [|y s]; [reflexivity|].
+  cbn [length firstn str_eqb prefixb]. rewrite IH, (N.eqb_sym y x). reflexivity.
+Qed.
+Lemma str_eqb_rev a b : str_eqb (rev a) b = str_eqb a (rev b).
+Proof.
+  apply Bool.eq_true_iff_eq. rewrite !str_eqb_eq. split; intros H; subst; rewrite rev_involutive; reflexivity.
+Qed.
+Lemma skipn_suffix (p s : str) : str_eqb (skipn (length s - length p) s) p = suffixb p s.
+Proof.
+  unfold suffixb. rewrite <- (firstn_prefix (rev p) (rev s)), rev_length, firstn_rev.
+  rewrite str_eqb_rev, rev_involutive. reflexivity.
+Qed.
+Lemma re_open_front_spec rs : re_open_front rs = negb (prefixb dotstar rs || prefixb [94] rs).
+Proof.
+  unfold re_open_front. rewrite negb_orb.
+  rewrite <- (firstn_prefix dotstar rs), <- (firstn_prefix [94] rs). reflexivity.
+Qed.
+Lemma re_open_back_spec rs : re_open_back rs = negb (suffixb dotstar rs || suffixb [36] rs).
+Proof.
+  unfold re_open_back. rewrite negb_orb.
+  rewrite <- (skipn_suffix dotstar rs), <- (skipn_suffix [36] rs). reflexivity.
+Qed.
+
+Lemma sadd_items a b : items (sadd a b) = items a ++ items b.
+Proof. unfold sadd. rewrite items_merge. apply items_app. Qed.
+Lemma sadd_wfp a b : no_empty a = true -> no_empty b = true -> wfp (sadd a b) = true.
+Proof. intros A B. apply merge_no_empty_wfp. rewrite no_empty_app, A, B. reflexivity. Qed.
+Lemma sadd_is_ph a b : existsb is_ph (sadd a b) = existsb is_ph a || existsb is_ph b.
+Proof. unfold sadd. rewrite merge_is_ph. apply existsb_app. Qed.
+Lemma no_ph_front v : no_ph (add_multi_front v) = no_ph v.
+Proof. unfold add_multi_front, no_ph. destruct (starts_multi v); [reflexivity|]. rewrite sadd_is_ph. reflexivity. Qed.
+Lemma no_ph_back v : no_ph (add_multi_back v) = no_ph v.
+Proof.
+  unfold add_multi_back, no_ph. destruct (ends_multi v); [reflexivity|]. rewrite sadd_is_ph. cbn. rewrite orb_false_r. reflexivity.
+Qed.
+
+Definition core (m : modifier) : bool :=
+  match m with MBase64 | MBase64Offset | MWide | MUtf16 | MUtf16be => false | _ => true end.
+Definition is_list_mod (m : modifier) : bool := match m with MAll | MNeq => true | _ => false end.
+Definition is_expand (m : modifier) : bool := match m with MExpand => true | _ => false end.
+Definition is_windash (m : modifier) : bool := match m with MWindash => true | _ => false end.
+Definition has_field (f : option str) : bool := match f with Some _ => true | None => false end.
+
+(* invariant of the values while the chain runs: well-formed parts; no placeholder before the
+   first 'expand' ([nph] = no expand so far) *)
+Definition good_str (nph : bool) (v : sstring) : bool := wfp v && (negb nph || no_ph v).
+Definition good_atom (nph : bool) (a : atomv sstring) : bool :=
+  match a with
+  | AStr _ v => good_str nph v
+  | ARe v _ _ _ => good_str nph v
+  | _ => true
+  end.
+Fixpoint good (nph : bool) (v : mval) : bool :=
+  match v with
+  | VAtom a => good_atom nph a
+  | VExp l => forallb (good nph) l
+  end.
+
+Lemma good_str_intro nph v : wfp v = true -> (nph = true -> no_ph v = true) -> good_str nph v = true.
+Proof. intros A B. unfold good_str. rewrite A. destruct nph; [rewrite B; reflexivity | reflexivity]. Qed.
+Lemma good_str_wfp nph v : good_str nph v = true -> wfp v = true.
+Proof. unfold good_str. rewrite andb_true_iff. tauto. Qed.
+Lemma good_str_nph v : good_str true v = true -> no_ph v = true.
+Proof. unfold good_str. rewrite andb_true_iff. cbn. tauto. Qed.
+
+(* ---------- one value modifier on one value ---------- *)
+Definition sim_atom (O : oracles) (field : option str) (applied : nat) (m : modifier) (nph : bool)
+                    (a : atomv sstring) : Prop :=
+  let first := Nat.eqb applied 0 in
+  let nph' := nph && negb (is_expand m) in
+  if type_check m a then
+    match modify O field applied m a with
+    | Ok r => sp_modify O (has_field field) first m (amap items a) = Some (view r) /\ good nph' r = true
+    | SigmaErr _ => sp_modify O (has_field field) first m (amap items a) = None
+    | Crash _ => False
+    end
+  else sp_modify O (has_field field) first m (amap items a) = None.
+
+Lemma compile_sim O nph v l fi fm fs : items v = l -> good_str nph v = true ->
+  match compile O v fi fm fs with
+  | Ok r => sp_re O l fi fm fs = Some (view r) /\ good nph r = true
+  | SigmaErr _ => sp_re O l fi fm fs = None
+  | Crash _ => False
+  end.
+Proof.
+  intros <- Hg. unfold compile, sp_re. rewrite to_plain_items.
+  destruct (re_ok O (plain_items (items v))); [split; [reflexivity | exact Hg] | reflexivity].
+Qed.
+
+Lemma good_str_sadd nph a b : good_str nph a = true -> good_str nph b = true -> good_str nph (sadd a b) = true.
+Proof.
+  unfold good_str. rewrite !andb_true_iff. intros [A1 A2] [B1 B2]. split.
+  - apply sadd_wfp; apply wfp_no_empty; assumption.
+  - destruct nph; [|reflexivity]. cbn in *. unfold no_ph in *. rewrite sadd_is_ph.
+    apply negb_true_iff in A2, B2. rewrite A2, B2. reflexivity.
+Qed.
+Lemma good_re_dotstar nph : good_str nph re_dotstar = true.
+Proof. destruct nph; reflexivity. Qed.
+
+Lemma re_front_sim nph s : good_str nph s = true ->
+  items (if re_open_front (to_plain false s) then sadd re_dotstar s else s) = sp_re_front (items s) /\
+  good_str nph (if re_open_front (to_plain false s) then sadd re_dotstar s else s) = true.
+Proof.
+  intros Hg. unfold sp_re_front. rewrite re_open_front_spec, to_plain_items.
+  destruct (prefixb dotstar (plain_items (items s)) || prefixb [94] (plain_items (items s))); cbn [negb].
+  - split; [reflexivity | exact Hg].
+  - split; [rewrite sadd_items; reflexivity | apply good_str_sadd; [apply good_re_dotstar | exact Hg]].
+Qed.
+Lemma re_back_sim nph rs s : good_str nph s = true ->
+  items (if re_open_back rs then sadd s re_dotstar else s) = sp_re_back rs (items s) /\
+  good_str nph (if re_open_back rs then sadd s re_dotstar else s) = true.
+Proof.
+  intros Hg. unfold sp_re_back. rewrite re_open_back_spec.
+  destruct (suffixb dotstar rs || suffixb [36] rs); cbn [negb].
+  - split; [reflexivity | exact Hg].
+  - split; [rewrite sadd_items; reflexivity | apply good_str_sadd; [exact Hg | apply good_re_dotstar]].
+Qed.
+
+Lemma good_front nph v : good_str nph v = true -> good_str nph (add_multi_front v) = true.
+Proof.
+  unfold good_str. rewrite !andb_true_iff. intros [A B]. split; [apply add_multi_front_wfp; exact A|].
+  rewrite no_ph_front. exact B.
+Qed.
+Lemma good_back nph v : good_str nph v = true -> good_str nph (add_multi_back v) = true.
+Proof.
+  unfold good_str. rewrite !andb_true_iff. intros [A B]. split; [apply add_multi_back_wfp; exact A|].
+  rewrite no_ph_back. exact B.
+Qed.
+Lemma front_items_g nph v : good_str nph v = true -> items (add_multi_front v) = sp_front (items v).
+Proof. intros H. apply add_multi_front_items, wfp_no_empty, (good_str_wfp nph). exact H. Qed.
+Lemma back_items_g nph v : good_str nph v = true -> items (add_multi_back v) = sp_back (items v).
+Proof. intros H. apply add_multi_back_items, wfp_no_empty, (good_str_wfp nph). exact H. Qed.
+
+Lemma has_wildcard_items v : has_wildcard (items v) = contains_special v.
+Proof.
+  unfold has_wildcard, contains_special. induction v as [|p v IH]; [reflexivity|].
+  rewrite items_cons, existsb_app. cbn [existsb]. rewrite IH. f_equal.
+  destruct p as [s| | |n]; try reflexivity. cbn [part_items]. induction s; [reflexivity | assumption].
+Qed.
+
+Lemma modify_sim O field applied m nph a :
+  core m = true -> is_list_mod m = false -> (is_re m = true -> applied <> 0%nat) ->
+  (is_windash m = true -> nph = true) -> good_atom nph a = true ->
+  sim_atom O field applied m nph a.
+Proof.
+  intros Hc Hl Hre Hwd Hg. unfold sim_atom.
+  destruct m as [| | | | | | |p|f| | | | |o| | | | | |]; try discriminate Hc; try discriminate Hl;
+  destruct a; cbn [type_check]; try reflexivity.
+  all: cbn [modify ok_atom amap good_atom is_expand negb] in *; rewrite ?andb_true_r.
+  - (* cased *) split; [reflexivity | exact Hg].
+  - (* cidr *) destruct applied as [|k]; cbn; [|reflexivity]. rewrite to_plain_items.
+    destruct (cidr_ok O (plain_items (items s))); cbn; [split; reflexivity | reflexivity].
+  - (* contains, string *) cbn. unfold sp_contains. rewrite (back_items_g nph) by (apply good_front; exact Hg).
+    rewrite (front_items_g nph) by exact Hg. split; [reflexivity | apply good_back, good_front; exact Hg].
+  - (* contains, regex *)
+    destruct (re_front_sim nph s Hg) as [E1 G1].
+    destruct (re_back_sim nph (to_plain false s) _ G1) as [E2 G2].
+    apply (compile_sim O nph); [|exact G2]. rewrite E2, E1, to_plain_items. reflexivity.
+  - (* contains, fieldref *) split; reflexivity.
+  - (* timestamp part *) split; reflexivity.
+  - (* flags *) destruct f; split; solve [reflexivity | exact Hg].
+  - (* endswith, string *) cbn. rewrite (front_items_g nph) by exact Hg. split; [reflexivity | apply good_front; exact Hg].
+  - (* endswith, regex *) destruct (re_front_sim nph s Hg) as [E1 G1].
+    apply (compile_sim O nph); [exact E1 | exact G1].
+  - split; reflexivity.
+  - (* exists *) destruct field; cbn; [|reflexivity]. destruct applied; cbn; [split; reflexivity | reflexivity].
+  - (* expand, string *) cbn. rewrite insert_placeholders_items by (apply (good_str_wfp nph); exact Hg).
+    split; [reflexivity|]. rewrite andb_false_r. apply good_str_intro; [|discriminate].
+    apply insert_placeholders_wfp, (good_str_wfp nph). exact Hg.
+  - (* expand, regex *) rewrite andb_false_r. apply (compile_sim O false).
+    + apply insert_placeholders_items, (good_str_wfp nph). exact Hg.
+    + apply good_str_intro; [|discriminate]. apply insert_placeholders_wfp, (good_str_wfp nph). exact Hg.
+  - (* fieldref *) cbn. rewrite has_wildcard_items. destruct (contains_special s); [reflexivity|].
+    rewrite to_plain_items. split; reflexivity.
+  - (* compare *) split; reflexivity.
+  - (* re: never on a modified value *) destruct applied as [|k]; [exfalso; apply Hre; reflexivity|]. reflexivity.
+  - (* startswith, string *) cbn. rewrite (back_items_g nph) by exact Hg. split; [reflexivity | apply good_back; exact Hg].
+  - (* startswith, regex *) destruct (re_back_sim nph (to_plain false s) s Hg) as [E1 G1].
+    apply (compile_sim O nph); [|exact G1]. rewrite E1, to_plain_items. reflexivity.
+  - split; reflexivity.
+  - (* windash *) specialize (Hwd eq_refl). subst nph. cbn.
+    pose proof (windash_items (word O) s (good_str_wfp _ _ Hg) (good_str_nph _ Hg)) as E.
+    pose proof (windash_good (word O) s (good_str_wfp _ _ Hg) (good_str_nph _ Hg)) as G.
+    split.
+    + rewrite <- E, !map_map. reflexivity.
+    + rewrite forallb_forall. intros x Hx. apply in_map_iff in Hx. destruct Hx as [y [<- Hy]].
+      rewrite Forall_forall in G. destruct (G y Hy) as [A B]. cbn. apply good_str_intro; auto.
+Qed.
+
+(* ---------- expansion fan-out, the value list, one step, the chain ---------- *)
+Definition sim_list (nph : bool) (r : outcome (list mval)) (s : option (list sval)) : Prop :=
+  match r with
+  | Ok rs => s = Some (map view rs) /\ forallb (good nph) rs = true
+  | SigmaErr _ => s = None
+  | Crash _ => False
+  end.
+
+Lemma apply_val_exp O field applied m l :
+  apply_val O field applied m (VExp l) =
+  obind (flat_mapM (apply_val O field applied m) l) (fun r => Ok [VExp r]).
+Proof.
+  cbn [apply_val]. f_equal. induction l as [|x r IH]; [reflexivity|]. cbn [flat_mapM]. rewrite <- IH. reflexivity.
+Qed.
+Lemma sp_apply_exp O hf first m l :
+  sp_apply O hf first m (VExp l) = option_map (fun r => [VExp r]) (sp_flat (sp_apply O hf first m) l).
+Proof.
+  cbn [sp_apply]. f_equal. induction l as [|x r IH]; [reflexivity|]. cbn [sp_flat]. rewrite <- IH. reflexivity.
+Qed.
+
+Lemma flat_sim nph (F : mval -> outcome (list mval)) (G : sval -> option (list sval)) l :
+  Forall (fun x => sim_list nph (F x) (G (view x))) l ->
+  sim_list nph (flat_mapM F l) (sp_flat G (map view l)).
+Proof.
+  induction 1 as [|x r Hx Hr IH]; [split; reflexivity|].
+  cbn [flat_mapM map sp_flat]. unfold sim_list in *.
+  destruct (F x) as [a|e|e]; cbn [obind]; [|rewrite Hx; reflexivity | contradiction].
+  destruct Hx as [Ex Gx]. rewrite Ex.
+  destruct (flat_mapM F r) as [b|e|e]; cbn [obind]; [|rewrite IH; reflexivity | contradiction].
+  destruct IH as [Er Gr]. rewrite Er, map_app, forallb_app, Gx, Gr. split; reflexivity.
+Qed.
+
+Lemma apply_sim O field applied m nph :
+  core m = true -> is_list_mod m = false -> (is_re m = true -> applied <> 0%nat) ->
+  (is_windash m = true -> nph = true) ->
+  forall v, good nph v = true ->
+  sim_list (nph && negb (is_expand m)) (apply_val O field applied m v)
+           (sp_apply O (has_field field) (Nat.eqb applied 0) m (view v)).
+Proof.
+  intros Hc Hl Hre Hwd. induction v as [a|l IH] using gval_ind'; intros Hg.
+  - pose proof (modify_sim O field applied m nph a Hc Hl Hre Hwd Hg) as H. unfold sim_atom in H.
+    cbn [apply_val view gmap sp_apply]. destruct (type_check m a).
+    + destruct (modify O field applied m a) as [r|e|e]; cbn [obind sim_list]; [|rewrite H; reflexivity | exact H].
+      destruct H as [E G]. rewrite E. cbn. rewrite G. split; reflexivity.
+    + cbn. rewrite H. reflexivity.
+  - rewrite apply_val_exp. cbn [view gmap]. rewrite sp_apply_exp. change (map (gmap items) l) with (map view l).
+    assert (H: sim_list (nph && negb (is_expand m)) (flat_mapM (apply_val O field applied m) l)
+                 (sp_flat (sp_apply O (has_field field) (Nat.eqb applied 0) m) (map view l))).
+    { apply flat_sim. cbn [good] in Hg. rewrite forallb_forall in Hg. rewrite Forall_forall in *.
+      intros x Hx. apply IH; [exact Hx | apply Hg; exact Hx]. }
+    unfold sim_list in *. destruct (flat_mapM (apply_val O field applied m) l) as [rs|e|e]; cbn [obind]; [|rewrite H; reflexivity | exact H].
+    destruct H as [E G]. rewrite E. cbn. rewrite G. split; reflexivity.
+Qed.
+
+Fixpoint wd_ok (nph : bool) (ms : list modifier) : bool :=
+  match ms with
+  | [] => true
+  | m :: r => (negb (is_windash m) || nph) && wd_ok (nph && negb (is_expand m)) r
+  end.
+
+Definition sim_state (r : outcome item_state) (s : option (list sval * bool * bool)) : Prop :=
+  match r with
+  | Ok st => s = Some (map view (values st), link_and st, negated st)
+  | SigmaErr _ => s = None
+  | Crash _ => False
+  end.
+
+Lemma chain_sim O field : forall ms applied st nph,
+  forallb core ms = true -> wd_ok nph ms = true ->
+  (applied = 0%nat -> match ms with m :: _ => is_re m = false | [] => True end) ->
+  forallb (good nph) (values st) = true ->
+  sim_state (run_chain O field applied ms st)
+            (sp_chain O (has_field field) (Nat.eqb applied 0) ms (map view (values st), link_and st, negated st)).
+Proof.
+  induction ms as [|m ms IH]; intros applied st nph Hc Hw Hre Hg; [reflexivity|].
+  cbn [forallb] in Hc. apply andb_true_iff in Hc. destruct Hc as [Hc Hcs].
+  cbn [wd_ok] in Hw. apply andb_true_iff in Hw. destruct Hw as [Hw Hws].
+  cbn [run_chain sp_chain].
+  destruct (is_list_mod m) eqn:El.
+  - destruct m; try discriminate El; cbn [step obind].
+    + apply (IH (S applied) {| values := values st; link_and := true; negated := negated st |} nph); auto.
+      * cbn in Hws. rewrite andb_true_r in Hws. exact Hws.
+      * discriminate.
+    + apply (IH (S applied) {| values := values st; link_and := link_and st; negated := true |} nph); auto.
+      * cbn in Hws. rewrite andb_true_r in Hws. exact Hws.
+      * discriminate.
+  - assert (S1: sim_list (nph && negb (is_expand m)) (flat_mapM (apply_val O field applied m) (values st))
+                  (sp_flat (sp_apply O (has_field field) (Nat.eqb applied 0) m) (map view (values st)))).
+    { apply flat_sim. rewrite forallb_forall in Hg. rewrite Forall_forall. intros x Hx.
+      apply apply_sim; auto.
+      - intros Hr Ha. specialize (Hre Ha). cbn in Hre. rewrite Hr in Hre. discriminate Hre.
+      - intros Hwd. rewrite Hwd in Hw. cbn in Hw. exact Hw. }
+    assert (E: step O field applied m st =
+               obind (flat_mapM (apply_val O field applied m) (values st))
+                     (fun vs => Ok {| values := vs; link_and := link_and st; negated := negated st |})).
+    { destruct m; try discriminate El; reflexivity. }
+    rewrite E. unfold sim_list in S1.
+    assert (E2: forall X Y, match m with MAll => X | MNeq => Y | _ =>
+                  match sp_flat (sp_apply O (has_field field) (Nat.eqb applied 0) m) (map view (values st)) with
+                  | Some vs' => sp_chain O (has_field field) false ms (vs', link_and st, negated st)
+                  | None => None end end =
+                match sp_flat (sp_apply O (has_field field) (Nat.eqb applied 0) m) (map view (values st)) with
+                  | Some vs' => sp_chain O (has_field field) false ms (vs', link_and st, negated st)
+                  | None => None end).
+    { intros X Y. destruct m; try discriminate El; reflexivity. }
+    rewrite E2. clear E2.
+    destruct (flat_mapM (apply_val O field applied m) (values st)) as [vs|e|e]; cbn [obind]; [|rewrite S1; reflexivity | exact S1].
+    destruct S1 as [S1 G1]. rewrite S1.
+    apply (IH (S applied) {| values := vs; link_and := link_and st; negated := negated st |} (nph && negb (is_expand m))); auto.
+    discriminate.
+Qed.
